@@ -72,6 +72,8 @@ struct Spec
     size_t          nfine{0};
     const uint32_t* susp{nullptr}; // ascending ordinals: yield at the n-th execution, without the container's lock,
     size_t          nsusp{0};      // of a basic block that calibration only ever saw executed under that lock
+    const uint32_t* shared{nullptr}; // ascending ordinals: yield (forced switch) at the n-th basic block executed
+    size_t          nshared{0};      // while the container's lock is held in shared mode only
     uint32_t        relock_stall{0}; // a client that takes the container's lock a second time within one call is
                                      // parked for this many decisions first (0: ordinary lock-request point)
     uint32_t        step_budget{20000};
@@ -107,6 +109,8 @@ void           calib_end();
 uint32_t       calib_locked_blocks();
 uint32_t       susp_seen();       // executions of such blocks by a client that did not hold the container's lock
 uint32_t       susp_fired();      // preemptions taken there
+uint32_t       shared_seen();     // basic blocks executed while holding the container's lock shared
+uint32_t       shared_fired();
 uint32_t       spin_yields();     // forced yields of a client that was busy-waiting inside one call
 uint32_t       relock_fired();    // calls that re-acquired the container's lock and were stalled there
 uint32_t       fine_fired();      // basic-block preemptions taken
